@@ -88,7 +88,7 @@ async fn one(ctx: &mut Ctx, rng: &mut Rng, is_pay: bool, init: Vec<Part>, script
                 if p.served.is_some() { cands.push(format!("d:{}", t)); cands.push(format!("d:{}", t)); }
                 else if p.method == "pay" {
                     if running {
-                        cands.push("pe:pending".into()); cands.push("pe:failed".into()); cands.push("pe:failedwarn".into()); cands.push("pe:err".into());
+                        cands.push("pe:pending".into()); cands.push("pe:failed".into()); cands.push("pe:failedwarn".into()); cands.push("pe:err".into()); cands.push("pe:conn".into());
                         if let Some(x) = parts.iter().find_map(|q| if let PSt::Complete(x) = q.st { Some(x) } else { None }) { cands.push(format!("pe:complete{}", x)); cands.push(format!("pe:complete{}", x)); }
                     }
                 } else {
@@ -130,7 +130,7 @@ async fn one(ctx: &mut Ctx, rng: &mut Rng, is_pay: bool, init: Vec<Part>, script
                 }
             } else if let Some(t) = act.strip_prefix("e:") {
                 if let Some(i) = n.parked.iter().position(|p| p.served.is_none() && tok(&p.method, &p.params) == t) {
-                    let code = if n.parked[i].method == "waitsendpay" { *rng.pick(&[Some(200), Some(200), Some(200), Some(-1), Some(210), None]) } else { *rng.pick(&[Some(-1), Some(200), Some(210), None, Some(-32602)]) };
+                    let code = if n.parked[i].method == "waitsendpay" { *rng.pick(&[Some(200), Some(200), Some(200), Some(-1), Some(210), None, Some(node::CONNECT)]) } else { *rng.pick(&[Some(-1), Some(200), Some(210), None, Some(-32602), Some(node::CONNECT)]) };
                     n.parked[i].served = Some(Err((code, "injected read fault".into())));
                     fault_seen = true;
                 }
@@ -140,6 +140,7 @@ async fn one(ctx: &mut Ctx, rng: &mut Rng, is_pay: bool, init: Vec<Part>, script
                         else if k == "pending" { Ok(node::pay_reply_json(&hh, "pending", 0, false)) }
                         else if k == "failed" { Ok(node::pay_reply_json(&hh, "failed", 0, false)) }
                         else if k == "failedwarn" { Ok(node::pay_reply_json(&hh, "failed", 0, true)) }
+                        else if k == "conn" { Err((Some(node::CONNECT), "Connection refused".into())) }
                         else { Err((Some(210), "Ran out of routes to try".into())) };
                     n.parked[i].served = Some(r);
                     n.pay_running.insert(hh.clone(), 0);
